@@ -9,6 +9,7 @@ CONSTANTS
   MaxTime = 26
   Lossy = FALSE
   KeepLater = FALSE
+  DropUntil = 1000
   Async <- OnlyP2
 INVARIANT TypeOK
 INVARIANT RemoveSaysGoodbye
